@@ -197,6 +197,23 @@ def _check_vertex_copy(viol, kind, got, exp, verts, cells, none_ok, case, inv):
         viol.add("copy-cell-data", f"cell data did not follow: {have_c} expected {want_c}", case, inv)
 
 
+def _check_data_copy(viol, ws, what, got, dmask, tok, miss, case, inv):
+    status, val = got
+    if status == "raises":
+        viol.add(f"{what}-raises:{type(val).__name__}", f"Data.copy_from_extent raised {type(val).__name__}: {val}", case, inv)
+        return
+    if val is None:
+        if any(dmask) and not miss:
+            viol.add(f"{what}-none-but-elements-qualify", f"Data.copy_from_extent returned None, expected mask {dmask}", case, inv)
+        return
+    vals = None if getattr(val, "values", None) is None else np.asarray(val.values, dtype=float)
+    want = np.array([tok(i) if m else np.nan for i, m in enumerate(dmask)])
+    if vals is None or vals.shape != want.shape or not np.array_equal(vals, want, equal_nan=True):
+        viol.add(f"{what}-wrong", f"Data.copy_from_extent values {None if vals is None else vals.tolist()} expected "
+                 f"{want.tolist()}", case, inv)
+    ws.remove_entity(val)  # keep the source object's children as they were
+
+
 def _replay_vertex_group(item):
     """item = (kind, [cases sharing one object], seed, force_copies)"""
     kind, cases, seed, force = item
@@ -237,6 +254,13 @@ def _replay_vertex_group(item):
                     stats["copies"] += 1
                     res = _outcome(lambda: obj.copy_from_extent(ext, inverse=inv))
                     _check_vertex_copy(viol, kind, res, exp["copy"], verts, cells, exp["none_ok"], case, inv)
+                    # Data.copy_from_extent (data.py:112-140): a new data entry on the same parent whose
+                    # values outside the data mask are blanked
+                    for dat, dmask, tok, what in ((vd, exp["q"], _vval, "vertex-data-copy"), (cd, exp["ck"], _cval, "cell-data-copy")):
+                        if dat is not None:
+                            _check_data_copy(viol, ws, what, _outcome(lambda: dat.copy_from_extent(ext, inverse=inv)),
+                                             dmask, tok, exp["miss"], case, inv)
+                            stats["copies"] += 1
         # the source object is not modified by selections
         same = np.array_equal(obj.vertices, verts) and np.array_equal(np.asarray(vd.values), [_vval(i) for i in range(len(verts))])
         if kind != "points":
@@ -250,7 +274,8 @@ def _replay_vertex_group(item):
 # ----------------------------------------------------------------------------------------------
 # Drillhole: the element is the hole, selected by its collar
 def _replay_drillhole_group(item):
-    kind, cases, _seed, _force = item
+    kind, cases, seed, force = item
+    rng = random.Random(seed)
     from geoh5py import Workspace
     from geoh5py.objects import Drillhole
     viol = _Viol(kind)
@@ -263,13 +288,19 @@ def _replay_drillhole_group(item):
         hole = Drillhole.create(ws, collar=collar, surveys=np.c_[[0.0, 10.0], [0.0, 0.0], [-90.0, -90.0]], name="hole")
         if nd:
             hole.add_data({"dd": {"depth": np.arange(1.0, nd + 1.0), "values": np.array([_vval(i) for i in range(nd)])}})
-        for case in cases:
+        seen = set()
+        extra = {inv: set(rng.sample(range(len(cases)), min(4 * EXTRA_COPIES, len(cases)))) for inv in (False, True)}
+        for idx, case in enumerate(cases):
             ext = _extent(case)
             for inv in (False, True):
                 exp = case["t" if inv else "f"]
-                _cmp_mask(viol, "mask", _outcome(lambda: hole.mask_by_extent(ext, inverse=inv)),
-                          exp["mask"], exp["none_ok"], case, inv)
+                got = _cmp_mask(viol, "mask", _outcome(lambda: hole.mask_by_extent(ext, inverse=inv)),
+                                exp["mask"], exp["none_ok"], case, inv)
                 stats["mask_calls"] += 1
+                key = (inv, tuple(exp["mask"]), exp["miss"], ext.shape[1], None if got is None else tuple(got.tolist()))
+                if not (force or key not in seen or idx in extra[inv]):
+                    continue
+                seen.add(key)
                 stats["copies"] += 1
                 status, val = _outcome(lambda: hole.copy_from_extent(ext, inverse=inv))
                 selected = exp["mask"][0]
@@ -537,11 +568,18 @@ def _object_key(case):
     return repr((case["kind"], case.get("verts"), case.get("cells"), case.get("leaves"), case.get("nd"), case.get("grid")))
 
 
+CHUNK = 150  # cases per work item: one object is rebuilt for every chunk of its boxes (load balance)
+
+
 def _group_cases(cases):
     groups = {}
     for c in cases:
         groups.setdefault(_object_key(c), []).append(c)
     return list(groups.values())
+
+
+def _chunks(group):
+    return [group[i:i + CHUNK] for i in range(0, len(group), CHUNK)]
 
 
 def _dispatch(item):
@@ -561,7 +599,8 @@ def _replay_cfg(cfg, res, cases, seed, max_objects):
         groups = [groups[i] for i in sorted(rng.sample(range(n_groups), max_objects))]
         full = False
     kind = cases[0]["kind"]
-    items = [(kind, g, seed * 1000003 + i, False) for i, g in enumerate(groups)]
+    items = [(kind, ch, seed * 1000003 + i * 1009 + j, False)
+             for i, g in enumerate(groups) for j, ch in enumerate(_chunks(g))]
     t0 = time.time()
     out = pmap(_dispatch, items, chunksize=1)
     wall = time.time() - t0
